@@ -36,6 +36,7 @@ ASSUMPTIONS = [
 ]
 
 VARNAMES = ['a', 'b1', 'c_2', "d'", 'E.x']
+ATNAMES = ['x@0', 'y@1', 'q@', 'a@b', 'r0@2']
 # legal names that are spelled like the format's keywords (without the
 # leading dot)
 KEYWORDISH = ['mode', 'add', 'ids', 'ver', 'nvars', 'dd', 'nnodes',
@@ -65,6 +66,9 @@ def write_file(case, path):
     for k_ in range(n):
         if (numeric >> k_) & 1:
             nm[k_] = NUMERIC[(numeric + k_) % len(NUMERIC)]
+    for k_ in range(n):
+        if (case.get('at', 0) >> k_) & 1:
+            nm[k_] = ATNAMES[k_]
     if len(set(nm)) < n:
         nm = list(VARNAMES[:n])
     nm = tuple(nm)
@@ -173,6 +177,17 @@ def write_file(case, path):
         rnd3.shuffle(body)
     lines += body
     lines.append('.end')
+    tc = case.get('trailing', 0)
+    if tc:
+        # a comment after the content of some header lines
+        k_ = 0
+        for i_, l_ in enumerate(lines):
+            if l_ == '.nodes':
+                break
+            if l_.startswith('.') and not l_.startswith('.ver'):
+                if (tc >> (k_ % 8)) & 1:
+                    lines[i_] = l_ + ' # note'
+                k_ += 1
     text = '\n'.join(lines) + '\n'
     with open(path, 'w') as f:
         f.write(text)
@@ -273,6 +288,8 @@ def run_random(spec, out):
             version=draw(st.sampled_from([1, 2])),
             kw=draw(st.sampled_from([0, 0, 0, 1, 2, 3, 5, 9, 31])),
             numeric=draw(st.sampled_from([0, 0, 0, 1, 2, 3, 6, 12, 31])),
+            at=draw(st.sampled_from([0, 0, 0, 1, 2, 5, 31])),
+            trailing=draw(st.sampled_from([0, 0, 0, 1, 4, 16, 255])),
             poison=draw(st.sampled_from(
                 [1, 2, 3, 4, 5, 7, 11, 14, 20, 27] if spec.get('poison_only')
                 else [0, 0, 1, 2, 3, 4, 7, 11, 14])),
